@@ -9,7 +9,8 @@ FTPAnonymousShell._path (inherited by FTPShell; the one place every shell operat
 result is what filesystemRoot.descendant returned for the very list it was given -- one call, no other construction.
 FilePath.descendant, for a list of *any* length (inductive invariant) and arbitrary names: exactly one child() step
 per segment, in order, child() used through its C26 contract (refuses, or returns a path that starts with its
-parent's), so the result is under the receiver or InsecurePath propagates.
+parent's), so the result is under the receiver or InsecurePath propagates.  FTPShell.rename (the one operation with
+two path arguments): os.rename is called at most once and only with the two paths _path returned, in order.
 Bounded (contracts/parts/C54_bounded.py): the real shell and the real protocol on a scratch tree.
 """
 from pyvc.api import *
@@ -144,6 +145,13 @@ class GPath:
     def preauthChild(self, path):
         return GPath(core.fresh_bool(ctx().fresh_name("c54_unknown_containment")), None)
 
+    def _elsewhere(self, *a):
+        p = GPath(core.fresh_bool(ctx().fresh_name("c54_unknown_containment")), None)
+        p.path = ("derived-path", id(p))
+        return p
+
+    sibling = parent = _elsewhere
+
 
 class Descendant(Contract):
     """FilePath.descendant(segments), for a list of *any* length (inductive invariant) and arbitrary names: the result
@@ -218,7 +226,79 @@ class ShellPath(Contract):
                  "        return self.filesystemRoot.clonePath(path)", "path_obtained_from_descendant_of_the_root")]
 
 
-CONTRACTS = [ToSegments, Descendant, ShellPath]
+def _path_summary(I, shell, segments):
+    """FTPAnonymousShell._path as proved by ShellPath + Descendant: a path under the root for these segments, or InsecurePath"""
+    from twisted.python import filepath
+    c = ctx()
+    if c.decide(core.fresh_bool(c.fresh_name("c54_refused"))):
+        raise filepath.InsecurePath("refused by child()")
+    tok = GPath(True, None)
+    tok.path = ("path-of", len(c.ghost["resolved"]))
+    c.ghost["resolved"].append((segments, tok))
+    return tok
+
+
+def _rename_model(I, src, dst):
+    c = ctx()
+    c.ghost["renames"].append((src, dst))
+    if c.decide(core.fresh_bool(c.fresh_name("c54_oserror"))):
+        raise OSError(2, "model")
+
+
+def _opaque_result(kind):
+    def f(I, *a, **kw):
+        return (kind,)
+    return f
+
+
+class ShellRename(Contract):
+    """FTPShell.rename(fromPath, toPath) -- the one shell operation with two path arguments: os.rename is called at most
+    once and only with the paths that _path returned for fromPath and for toPath, in that order (no path derived from
+    the other one, from a parent or from a raw name)."""
+    prop = "C54"
+    module = "twisted.protocols.ftp"
+    function = "FTPShell.rename"
+    differential = False
+    replay_decides = False
+    inputs = dict(a=ValList(), b=ValList())
+    summaries = {"FTPAnonymousShell._path": _path_summary}
+    calls = {"posix.rename": _rename_model, "succeed": _opaque_result("succeed"), "fail": _opaque_result("fail"),
+             "errnoToFailure": _opaque_result("errno")}
+    trusted = ["FTPAnonymousShell._path used through its contract (ShellPath / Descendant above)",
+               "os.rename may raise OSError; defer.succeed / defer.fail / errnoToFailure only build the reply"]
+
+    def setup(self, i):
+        shell = self.make(ftp.FTPShell, filesystemRoot=GPath(True, 0))
+        return dict(self=shell, args=[i.a, i.b], ghost=dict(resolved=[], renames=[], a=i.a, b=i.b, children=0, names=[],
+                                                              descendant_calls=[], descendant_results=[]))
+
+    def bounded_inputs(self, tier):
+        return iter(())
+
+    @property
+    def raises(self):
+        from twisted.python import filepath
+        return (filepath.InsecurePath,)
+
+    def _only_resolved_paths(S):
+        res, ren = S.ghost["resolved"], S.ghost["renames"]
+        if len(ren) > 1:
+            return False
+        if not ren:
+            return True
+        if len(res) != 2 or res[0][0] is not S.ghost["a"] or res[1][0] is not S.ghost["b"]:
+            return False
+        return ren[0][0] == res[0][1].path and ren[0][1] == res[1][1].path
+
+    ensures = dict(renames_only_the_two_resolved_paths=_only_resolved_paths)
+    canaries = [("        tp = self._path(toPath)\n        try:\n            os.rename(fp.path, tp.path)",
+                 "        tp = self._path(toPath)\n        try:\n            os.rename(tp.path, fp.path)", "renames_only_the_two_resolved_paths"),
+                ("        tp = self._path(toPath)\n        try:\n            os.rename(fp.path, tp.path)",
+                 "        tp = self._path(fromPath[:-1] + toPath[-1:])\n        try:\n            os.rename(fp.path, tp.path)",
+                 "renames_only_the_two_resolved_paths")]
+
+
+CONTRACTS = [ToSegments, Descendant, ShellPath, ShellRename]
 BOUNDED = bounded("C54")
 _SCOPE = ('real FTPShell._path(toSegments(cwd, arg)) for every argument of up to 5 tokens (/ .. . a bob2 NUL backslash *) under 8 working-directory histories, and the real FTP protocol (FTPFactory / Portal / FTPRealm) driven with raw command bytes on a scratch tree with prefix-sharing siblings: 10 verbs x 134 arguments x prefix histories, RNFR x RNTO pairs, stateful prefixes, 1500 random sessions; oracles: an audit hook on every filesystem call, byte-identical outside tree, no outside content or names on the wire')
 NOTES = dict(explanation="toSegments proved to produce only plain names (pieces of arbitrary content, bounded count); the shell and the "
@@ -234,7 +314,8 @@ MANIFEST = dict(
          "the working-directory list unmodified.  FTPAnonymousShell._path (inherited by FTPShell) is proved to return exactly "
          "what filesystemRoot.descendant returned for the list it was given, and FilePath.descendant is proved, for a list of "
          "any length (inductive invariant), to take exactly one child() step per segment with child() used through its C26 "
-         "contract, so the path every shell operation works on is under the root or InsecurePath is raised.  The "
+         "contract, so the path every shell operation works on is under the root or InsecurePath is raised.  FTPShell.rename is "
+         "proved to call os.rename at most once and only with the two paths _path returned for its two arguments.  The "
          "shell's operations, the protocol and longer arguments are exercised in the bounded tier only: " + _SCOPE + ".",
     note="Trusted: pyvc, SMT solvers, str.split as the inverse of join, the piece-count bound.  Everything else: bounded, never counted as proved.",
     technique="contract-based deductive verification (symbolic execution with the loop unrolled over a bounded number of arbitrary pieces, SMT strings) + bounded exhaustive sessions on a scratch tree",
